@@ -1,18 +1,43 @@
 """C04 -- A failed, interrupted or ambiguous commit never damages committed data.
 
-Proof      : coq/Props/C04.v over Model/Fault.v (file plane on top of the commit machine): for every
-             sequence of protocol steps, file writes, failures / asynchronous interrupts at any step boundary
-             (EAbort), crashes and rollbacks, by any number of transactions, every file referenced by a committed
-             version is present (C04_no_damage); files are deleted only by transactions that never flipped;
-             uncommitted files are unreachable; the protocol invariant (hence C01) survives every failure.
+Proof      : coq/Props/C04.v.
+             (1) Model/Fault.v (file plane on top of the commit machine): for every sequence of protocol steps, file
+             writes, failures / asynchronous interrupts at any step boundary (EAbort), crashes and rollbacks, by any number
+             of transactions, every file referenced by a committed version is present (C04_no_damage); files are deleted
+             only by transactions that never flipped; uncommitted files are unreachable; the protocol invariant (hence
+             C01) survives every failure.
+             (2) Model/Tail.v -- post-flip infallibility.  Fault.v's rollback is guarded by "never flipped"; the code has
+             no such test: Transaction.commit's `except Exception` arm deletes the transaction's files whenever an Exception
+             reaches it.  The TAIL of every commit path (what still runs inside Transaction.commit's `try` once the
+             version-hint write has landed: the rest of MetadataManager.commit, create_snapshot, _commit_file_ops,
+             _finish_committed, every library method they call inlined, BOTH sides of every `if` -- so code that runs only
+             under a table property is in it) is regenerated from the source by translator/gen_tail.py as a regular
+             expression over storage / lock calls, each marked guarded (an Exception it raises is swallowed before
+             Transaction.commit's handlers) or not.  Tail.v adds the event the guard excluded (TEscape: an exception class
+             leaves the tail, the arm the regenerated table gen_tx_on names runs, no test of the protocol state).
+             C04_post_flip_no_damage: for every tail and handler table with tail_safe, every event list keeps every file
+             of every committed version present; C04_tail_regenerated_safe / C04_commit_tail_no_damage: the regenerated
+             tails are safe for the regenerated table; C04_unguarded_tail_damages: the proviso is necessary (an escaping
+             class with a deleting arm has a damaging run).
 Tie        : each faulty run of the real code (fault injected at storage call k of a real commit) is projected to
-             model events -- protocol steps, FWrite for each file the transaction wrote, EAbort where the
-             exception escaped, FRollback when the transaction's files were deleted -- and `frun_strict` must
-             accept it (a rollback-delete after the flip is NOT accepted) and agree on flipped / outcome.
+             model events -- protocol steps, FWrite for each file the transaction wrote, EAbort where the exception escaped
+             before / at the flip, TEscape where it left the tail, FRollback when the transaction's files were deleted --
+             and `trun_strict` over the regenerated tail and handler table must accept it (a rollback-delete after the
+             flip is NOT accepted; a deletion of table files outside the rollback is refused by the projection) and agree
+             on flipped / outcome / what the handler did.  The calls every real commit issues after its flip must be a
+             word of the regenerated tail (tail_accepts, Brzozowski derivatives, evaluated in Coq), and an Exception
+             injected at one of them reaches the caller only if the tail has an unguarded call of that kind.
+Cases      : fault at storage call k (every k) x {OSError, botocore ClientError} before / after effect, KeyboardInterrupt,
+             SystemExit; persistent faults (every later call of the same operation on the same class of path fails);
+             x {append, expire, delete_snapshot} x {with, explicit, reused transaction object} x {local, CAS S3, non-CAS S3}
+             x TABLE CONFIGURATION / PRE-HISTORY (CONFIGS: retention window full / pruning at every commit / with room /
+             invalid value, metadata-log bound 1, expired and deleted snapshots in the history, long histories); thorough adds
+             double faults and one transaction that deletes and appends.
 Oracle     : implementation-only: after every faulty run, with an independent reader: success => post-state;
              raise => pre- or post-state; every file referenced by any retained snapshot present; storage-error
-             raise (not ambiguous) => pre-state; ambiguous => nothing the transaction wrote was deleted; the
-             table accepts a follow-up append; pre-state => none of the transaction's files is referenced.
+             raise (not ambiguous) => pre-state; ambiguous => nothing the transaction wrote was deleted; once the pointer
+             write landed nothing the transaction wrote is deleted, whichever later call fails (judged before the follow-up
+             commit); the table accepts a follow-up append; pre-state => none of the transaction's files is referenced.
 """
 from __future__ import annotations
 
@@ -32,14 +57,23 @@ MANIFEST_ENTRY = {
     "level_text": "C04_no_damage and companions proved in Coq by an inductive invariant over every sequence of protocol steps, "
                   "file writes, exceptions / asynchronous interrupts at any step boundary, crashes and rollbacks of any number of "
                   "transactions (so every single AND multiple fault sequence): files referenced by committed versions are never "
-                  "deleted, uncommitted files never become reachable, the commit invariant survives; real commits with a fault "
-                  "injected at every storage call (exception before effect, after effect, KeyboardInterrupt / SystemExit), both "
-                  "call styles, local / CAS-S3 / non-CAS-S3 backends are projected onto the model and must be accepted by its "
-                  "strict run; an implementation-only oracle judges pre/post state, file presence, ambiguity and liveness",
-    "level_note": "trusted: Coq kernel; translator/gen_commit.py (exception-handler tables of Transaction.commit / MetadataManager.commit / _write_hint_at_commit_point, C04_handlers_keep_after_possible_flip); harness projection (where the exception escaped, which deletions are a rollback); the model "
-                  "over-approximates which files a version references (base + everything the transaction wrote); in-memory S3 as "
-                  "in C08",
-    "technique": "Coq invariant proof over commit machine + file plane with translator-regenerated handler tables; fault-injection trace validation",
+                  "deleted, uncommitted files never become reachable, the commit invariant survives; post-flip infallibility "
+                  "(C04_post_flip_no_damage, C04_commit_tail_no_damage, C04_unguarded_tail_damages): the tail of every commit path "
+                  "after the commit-point write is regenerated from the source (all table configurations at once: both sides of every "
+                  "branch) and, with the regenerated handler table, no exception class leaving it at any point can delete a file a "
+                  "committed version references -- and any unguarded fallible call in a tail provably yields a damaging run; real "
+                  "commits with a fault injected at every storage call (exception before effect, after effect, persistent, "
+                  "KeyboardInterrupt / SystemExit), both call styles, local / CAS-S3 / non-CAS-S3 backends, on default tables and on "
+                  "tables with retention / metadata-log-bound properties and pruned, expired, deleted and long histories, are "
+                  "projected onto the model and must be accepted by its strict run; the calls observed after each flip must be a word "
+                  "of the regenerated tail; an implementation-only oracle judges pre/post state, file presence, ambiguity, post-flip "
+                  "deletions and liveness",
+    "level_note": "trusted: Coq kernel; translator/gen_commit.py (exception-handler tables of Transaction.commit / MetadataManager.commit / _write_hint_at_commit_point, C04_handlers_keep_after_possible_flip); "
+                  "translator/gen_tail.py (which calls follow the commit point and whether a try between them and Transaction.commit swallows Exception; its vocabulary of calls that touch neither "
+                  "storage nor the lock; fail-closed on anything else; checked against every observed post-flip call sequence); harness projection (where the exception escaped, which deletions "
+                  "are a rollback); the model over-approximates which files a version references (base + everything the transaction wrote) and lets an escaping class leave the tail at any "
+                  "point after the flip; in-memory S3 as in C08",
+    "technique": "Coq invariant proof over commit machine + file plane + post-commit tail machine with translator-regenerated handler tables and tails; fault-injection trace validation over table configurations",
     "design_ref": "DESIGN.md section 5 C04",
 }
 
@@ -97,6 +131,8 @@ def op_for(kind: str, res_initial: Optional[Dict[str, Any]] = None) -> Dict[str,
         return {"kind": "delete_snapshot", "which": "old"}
     if kind == "delete_current":
         return {"kind": "delete_snapshot", "which": "current"}
+    if kind == "replace_txn":
+        return {"kind": "replace_txn", "rows": [{"x": 100}]}      # ONE transaction deletes a file of the current snapshot and appends
     raise ValueError(kind)
 
 
@@ -410,7 +446,7 @@ def fault_is_exception(e: dict) -> bool:
     return isinstance(r, tuple) and r[1] not in ("KeyboardInterrupt", "SystemExit")
 
 
-TAIL_OF = {"append": "gen_tail_file_ops", "expire": "gen_tail_meta_only", "delete_snapshot": "gen_tail_delete_snapshot",
+TAIL_OF = {"append": "gen_tail_file_ops", "replace_txn": "gen_tail_file_ops", "expire": "gen_tail_meta_only", "delete_snapshot": "gen_tail_delete_snapshot",
            "delete_current": "gen_tail_delete_snapshot"}
 
 
@@ -420,7 +456,7 @@ def handlers_of(opkind: str) -> str:
 
 def model_expr(res: P.CaseResult, opkind: str, backend: str, evs: List[str]) -> str:
     from harness.props.c01 import kind_of
-    kind, mr = kind_of(op_for(opkind))
+    kind, mr = ("KFresh", 50) if opkind == "replace_txn" else kind_of(op_for(opkind))
     lu0 = res.initial["meta"]["last_updated_ms"]
     cfgs = "{| cas := %s; lockkind := %s |}" % ("true" if backend == "s3cas" else "false", "Excl" if backend == "local" else "GrantAll")
     tevs = [e if e.startswith("TEscape") else f"TF ({e})" for e in evs]
@@ -474,10 +510,12 @@ def observed_tail(res: P.CaseResult) -> Optional[Tuple[List[str], bool, List[Tup
 
 # ------------------------------------------------------------------------------------------------ driver
 def run(ctx) -> None:
-    ctx.rule = ("one real commit per run with a fault at storage call k (every k): OSError before effect, OSError after effect "
-                "(object storage), KeyboardInterrupt / SystemExit at the step boundary; x {append, expire, delete_snapshot} x "
-                "{with, explicit} x {local, s3cas, s3nocas}; thorough adds double faults (k, k2) on the append path; distinct = "
-                "(backend, op, style, k, kind)")
+    ctx.rule = ("one real commit per run with a fault at storage call k (every k): OSError / ClientError before effect, after effect "
+                "(object storage), persistent from call k on, KeyboardInterrupt / SystemExit at the step boundary; x {append, expire, "
+                "delete_snapshot} x {with, explicit, reuse} x {local, s3cas, s3nocas} x table history (default; retention window full / "
+                "pruning / with room / invalid; metadata-log bound 1; expired, deleted, long histories -- from the start of commit() on); "
+                "thorough adds every history, double faults (k, k2) on the append path and a delete+append transaction; distinct = "
+                "(backend, op, style, history, k, k2, kind, persistent)")
     ctx.trusted_base += ["harness/lib/sched.py fault directives, protocol.py, mems3.py; harness/props/c04.py projection"]
     ctx.assumptions += ["storage failures are injected as OSError and as a non-OSError (botocore ClientError); KeyboardInterrupt/SystemExit for every BaseException"]
     ctx.proofs(THEOREMS, gen_files=["GenCommit.v", "GenTail.v"])
@@ -496,8 +534,13 @@ def run(ctx) -> None:
             if quick:
                 combos.append((backend, "append", ["with", "explicit"][(ci + bi) % 2], config))
             else:
-                combos += [(backend, "append", "with", config), (backend, "append", "explicit", config),
-                           (backend, "expire", "with", config), (backend, "delete_snapshot", "with", config)]
+                combos += [(backend, "append", "with", config), (backend, "append", "explicit", config)]
+                if bi == ci % 3:
+                    combos += [(backend, "expire", "with", config), (backend, "delete_snapshot", "with", config)]
+                if backend == "local" and config in ("ret2-full", "ret1-long", "long"):
+                    combos.append((backend, "replace_txn", "with", config))     # (the actor finds its victim file on the local tree)
+    if not quick:
+        combos.append(("local", "replace_txn", "with", "default"))
     exprs, meta_runs, bad = [], [], []
     tail_obs: List[Tuple[Dict[str, Any], str, Tuple[List[str], bool, List[Tuple[str, bool]]]]] = []
     total = 0
@@ -521,7 +564,8 @@ def run(ctx) -> None:
         if quick:
             kinds = [k for k in kinds if k != "sysexit"]
         if quick and config != "default":
-            kinds = [k for k in kinds if k != "other-after"]
+            # one exception type per backend (OSError on the file system, a botocore ClientError on the object stores)
+            kinds = ["exc-before", "kbi"] if backend == "local" else ["other-before", "exc-after", "kbi"]
         ks = list(range(ncalls))
         first_commit = next((i for i, e in enumerate(clean.log) if "Transaction.commit" in e["phase"] or "SnapshotManager.delete_snapshot" in e["phase"]), 0)
         if config != "default":
